@@ -108,6 +108,16 @@ func statefulFuncs(w *World) map[*ssa.Function]string {
 			default:
 				return
 			}
+			// a closure assigning to a variable of its enclosing function (`ordered = append(ordered, x)` inside a func literal):
+			// the variable outlives the call, later calls see the earlier ones' effect
+			if st, ok := ins.(*ssa.Store); ok && fn.Parent() != nil {
+				if fv, ok := valueRoot(st.Addr).(*ssa.FreeVar); ok && st.Addr == ssa.Value(fv) {
+					if _, isFn := fv.Type().(*types.Pointer).Elem().Underlying().(*types.Signature); !isFn {
+						out[fn] = "assigns to " + fv.Name() + ", a variable captured from " + fnKey(fn.Parent())
+						return
+					}
+				}
+			}
 			cls, via := w.baseClass(target)
 			switch cls {
 			case "instance":
@@ -138,7 +148,11 @@ func statefulFuncs(w *World) map[*ssa.Function]string {
 				if !ok {
 					return
 				}
-				if f := c.Common().StaticCallee(); f != nil {
+				f := c.Common().StaticCallee()
+				if f == nil && !c.Common().IsInvoke() {
+					f = closureTarget(c.Common().Value, 0)
+				}
+				if f != nil {
 					if why, ok := out[f]; ok && f != fn {
 						out[fn] = "calls " + fnKey(f) + " which " + why
 						changed = true
@@ -451,6 +465,15 @@ func classifyMapLoop(w *World, fn *ssa.Function, lp rangeLoop, wsum map[*ssa.Fun
 			case ssa.CallInstruction:
 				cc := x.Common()
 				f := cc.StaticCallee()
+				if f == nil && !cc.IsInvoke() {
+					// a call of a function variable / closure: judged like a static call when the target is known
+					if t := closureTarget(cc.Value, 0); t != nil {
+						if why, ok := stateful[t]; ok {
+							bad = append(bad, fmt.Sprintf("call to %s, which %s: the effect of one iteration is visible to the next, so results depend on iteration order (at %s)", fnKey(t), why, w.instrPos(ins)))
+						}
+						continue
+					}
+				}
 				if f != nil {
 					name := f.String()
 					if (builderWriters[name] || fprintFuncs[name]) && len(cc.Args) > 0 {
